@@ -15,6 +15,7 @@ import (
 	"path"
 	"path/filepath"
 	"reflect"
+	"runtime"
 	"sort"
 	"strconv"
 	"strings"
@@ -228,6 +229,40 @@ func loadDebFileDump(data []byte) string {
 		return "path-wrong"
 	}
 	return "ok " + dumpLoadedDeb(d)
+}
+
+// dataOnlyDigest loads a file, keeps only Deb.Data and the close function, lets the garbage
+// collector run, and then reads the payload
+func dataOnlyDigest(path string) string {
+	data, closer := func() (*tar.Reader, func() error) {
+		d, closer, err := deb.LoadFile(path)
+		if err != nil {
+			return nil, nil
+		}
+		return d.Data, closer
+	}()
+	if data == nil {
+		return "load-failed"
+	}
+	defer closer()
+	runtime.GC()
+	runtime.GC()
+	var entries [][2]string
+	for {
+		h, err := data.Next()
+		if err != nil {
+			if err != io.EOF {
+				return "read-error: " + err.Error()
+			}
+			break
+		}
+		body, err := io.ReadAll(data)
+		if err != nil {
+			return "read-error: " + err.Error()
+		}
+		entries = append(entries, [2]string{h.Name, string(body)})
+	}
+	return listingDigest(entries)
 }
 
 func debDataDigest(d *deb.Deb) string {
@@ -601,23 +636,32 @@ func streamDeb(g *core.G) {
 
 var prevDeb struct {
 	sync.Mutex
-	data   []byte
-	digest string
-	older  []byte
+	data        []byte
+	digest      string
+	older       []byte
+	olderDigest string
 }
 
 // emitDebLife: three fresh well-formed packages through law-deblife
 func emitDebLife(g *core.G) {
 	var ds [][]byte
 	var ms []debModel
+	same := ""
 	for i := 0; i < 3; i++ {
 		m := genDebModel(g.R)
 		m.CtlExt, m.DataExt = g.R.Pick([]string{".gz", ".gz", ".zst", ".xz", ""}), g.R.Pick([]string{".gz", ".gz", ".zst", ".xz", ""})
+		if i == 0 {
+			same = g.R.Pick([]string{"", "", ".gz", ".zst"})
+		}
+		if same != "" {
+			// all three with the same compressor: what one handle released is what the next ones pick up
+			m.CtlExt, m.DataExt = same, same
+		}
 		m.Extra = nil
 		ms = append(ms, m)
 		ds = append(ds, buildAr(m.members()))
 	}
-	g.Emit("law-deblife", core.Hex(string(ds[0])), core.Hex(string(ds[1])), core.Hex(string(ds[2])), ms[1].dataDigest(), ms[2].dataDigest())
+	g.Emit("law-deblife", core.Hex(string(ds[0])), core.Hex(string(ds[1])), core.Hex(string(ds[2])), ms[1].dataDigest(), ms[2].dataDigest(), ms[0].dataDigest())
 }
 
 func emitDebModel(g *core.G, m debModel) {
@@ -627,10 +671,10 @@ func emitDebModel(g *core.G, m debModel) {
 	if prevDeb.data != nil {
 		g.Emit("law-debtwo", core.Hex(string(prevDeb.data)), core.Hex(string(data)), prevDeb.digest, m.dataDigest())
 		if prevDeb.older != nil {
-			g.Emit("law-deblife", core.Hex(string(prevDeb.older)), core.Hex(string(prevDeb.data)), core.Hex(string(data)), prevDeb.digest, m.dataDigest())
+			g.Emit("law-deblife", core.Hex(string(prevDeb.older)), core.Hex(string(prevDeb.data)), core.Hex(string(data)), prevDeb.digest, m.dataDigest(), prevDeb.olderDigest)
 		}
 	}
-	prevDeb.older = prevDeb.data
+	prevDeb.older, prevDeb.olderDigest = prevDeb.data, prevDeb.digest
 	prevDeb.data, prevDeb.digest = data, m.dataDigest()
 	prevDeb.Unlock()
 	emitDeb(g, data)
@@ -669,7 +713,7 @@ func streamDebfuzz(g *core.G) {
 		}
 		emitDeb(g, data)
 		g.Emit("law-debsafe", core.Hex(string(data)))
-		if i%20 == 0 {
+		if i%8 == 0 {
 			emitDebLife(g)
 		}
 	}
@@ -758,7 +802,7 @@ func streamDebsig(g *core.G) {
 		ms = append(ms, arMember{Name: "_gpg" + role, TS: "0", UID: "0", GID: "0", Mode: "100644", Data: sig})
 		good := buildAr(ms)
 		krIn, krOut, krEmpty := []*openpgp.Entity{ks[0], ks[1]}, []*openpgp.Entity{ks[2]}, []*openpgp.Entity{}
-		if i%10 == 0 {
+		if i%2 == 0 {
 			emitDebLife(g)
 		}
 		emitDebsig(g, good, role, krIn)
@@ -955,6 +999,13 @@ func init() {
 		defer os.Remove(f.Name())
 		f.Write([]byte(core.MustUnHex(a[0])))
 		f.Close()
+		// a caller that keeps only the payload stream and the close function of a LoadFile handle:
+		// the stream stays readable until the caller closes it, whatever the collector does meanwhile
+		if len(a) > 5 {
+			if got := dataOnlyDigest(f.Name()); got != a[5] {
+				return fmt.Sprintf("FAIL the payload read through Deb.Data alone (the *Deb dropped, a collection in between) lists %s, packaged: %s", got, a[5])
+			}
+		}
 		if d, closer, err := deb.LoadFile(f.Name()); err == nil {
 			debDataDigest(d)
 			closer()
